@@ -161,7 +161,7 @@ func c17GenOp(r *core.Rand, ser int, hasPayloadPUSI bool) C17Op {
 	case 1:
 		return C17Op{Op: "reuse"}
 	case 2:
-		return C17Op{Op: "scribble"}
+		return C17Op{Op: r.PickS("scribble", "scribble", "append")}
 	}
 	op := C17Op{Op: "write", Ser: ser}
 	switch r.Intn(12) {
@@ -449,7 +449,16 @@ func (c17) Exec(script interface{}, c *core.Ctx) {
 		psnap    []packet.Packet
 	}
 	var held []heldResult
+	// lists the caller appended a packet of its own to: that element is the caller's
+	var appendedTo [][]*packet.Packet
+	callersOwn := &packet.Packet{0x47, 0x1F, 0xFF, 0x10, 'o', 'w', 'n'}
 	checkHeld := func() bool {
+		for _, l := range appendedTo {
+			if l[len(l)-1] != callersOwn {
+				c.Fail("packets_independent", "element_the_caller_appended_to_a_returned_list_was_overwritten", "another packet", "the caller's packet")
+				return false
+			}
+		}
 		for _, h := range held {
 			if !bytes.Equal(h.b, h.bsnap) {
 				c.Fail("bytes_independent", "earlier_bytes_result_changed", "changed", "unchanged")
@@ -577,6 +586,17 @@ func (c17) Exec(script interface{}, c *core.Ctx) {
 				c.Fault("caller_scribbles_result")
 			}
 			c.Log("scribble")
+		case "append":
+			// (lastPkts is nil before the first comparison: appending to nil is the caller's own affair)
+			appendedTo = append(appendedTo, append(lastPkts, callersOwn))
+			if len(appendedTo) > 4 {
+				appendedTo = appendedTo[1:]
+			}
+			if len(lastPkts) == 0 && lastPkts != nil {
+				c.Probe("caller_appended_to_an_empty_packet_list")
+			}
+			c.Fault("caller_appends_to_result")
+			c.Log("append")
 		default:
 			pk, pay, hasPay := c17Packet(op)
 			callerBuf = pk
